@@ -257,6 +257,9 @@ def network_simplex(
                 nxt = order[(pos + 1) % total_nodes]
                 thread[node] = nxt
                 rev_thread[nxt] = node
+    else:
+        # Iteration limit reached before a pricing pass found no improving arc: nothing is proven
+        return Result(None, float("inf"), iterations, total_arcs, Status.MAX_ITER)
 
     for arc in range(m, total_arcs):
         if flow[arc] > 0:
